@@ -264,3 +264,90 @@ theorem writeLegacy3_total (variant : String) (vr : Variant) (keys vals : List B
   exact ⟨_, rfl⟩
 
 end LegacyWrite
+
+/-! ### leaf indexes -/
+
+namespace LegacyWrite
+
+theorem oldStep_inv (kn : Array (List Nat)) (ls : Bool) (n qsize : Nat) (q : Sub) (hq : Inv n q) :
+    (∀ k ∈ (oldStep kn ls qsize q).2, Inv n k) ∧
+    (∀ j, (oldStep kn ls qsize q).1.leaf = some j → j < n) := by
+  obtain ⟨hq1, hq2⟩ := hq
+  unfold oldStep
+  by_cases h1 : q.e - q.s = 1
+  · rw [if_pos h1]
+    refine ⟨by simp, ?_⟩
+    intro j hj
+    simp only [Option.some.injEq] at hj
+    omega
+  · rw [if_neg h1]
+    simp only
+    generalize lcp (kn.getD q.s []) (kn.getD (q.e - 1) []) = c
+    constructor
+    · generalize hst : (if ((kn.getD q.s []).length == c) = true then q.s + 1 else q.s) = s
+      have hsle : s ≤ q.e := by rw [← hst]; split <;> omega
+      obtain ⟨ha, _, _, _⟩ := groupRuns_spec (fun t => (kn.getD t []).getD c 0) q.e (q.e - s) s hsle
+        (Nat.le_refl _)
+      intro k hk
+      simp only [List.mem_map] at hk
+      obtain ⟨r, hr, rfl⟩ := hk
+      obtain ⟨_, h4, h5⟩ := ha r hr
+      exact ⟨h4, Nat.le_trans h5 hq2⟩
+    · intro j hj
+      split at hj
+      · simp only [Option.some.injEq] at hj; omega
+      · cases hj
+
+/-- every key index stored in a node of the old trie is an index into the key list -/
+theorem oldLoop_leaf_lt (kn : Array (List Nat)) (ls : Bool) (n : Nat) :
+    ∀ fuel i (queue : Array Sub) (nodes res : Array OldNode),
+      (∀ q ∈ queue.toList, Inv n q) →
+      (∀ x ∈ nodes.toList, ∀ j, x.leaf = some j → j < n) →
+      oldLoop kn ls fuel i queue nodes = .ok res →
+      ∀ x ∈ res.toList, ∀ j, x.leaf = some j → j < n := by
+  intro fuel
+  induction fuel with
+  | zero =>
+    intro i queue nodes res _ hn hr
+    unfold oldLoop at hr
+    split at hr
+    · cases hr
+    · cases hr; exact hn
+  | succ fuel ih =>
+    intro i queue nodes res hinv hn hr
+    unfold oldLoop at hr
+    split at hr
+    · next hi =>
+      simp only at hr
+      have hi' : i < queue.toList.length := by simpa using hi
+      have hqi : queue[i] = queue.toList[i] := by simp
+      obtain ⟨hk, hl⟩ := oldStep_inv kn ls n queue.size queue[i]
+        (hinv _ (by rw [hqi]; exact List.getElem_mem hi'))
+      apply ih _ _ _ _ _ _ hr
+      · intro q hq
+        rw [Array.toList_append, List.mem_append] at hq
+        rcases hq with hq | hq
+        · exact hinv q hq
+        · exact hk q (by simpa using hq)
+      · intro x hx
+        rw [Array.toList_push, List.mem_append, List.mem_singleton] at hx
+        rcases hx with hx | rfl
+        · exact hn x hx
+        · exact hl
+    · cases hr; exact hn
+
+theorem buildOld_leaf_lt (keys : List Bytes) (ls : Bool) (nodes : Array OldNode)
+    (h : buildOld keys ls = .ok nodes) :
+    ∀ x ∈ nodes.toList, ∀ j, x.leaf = some j → j < keys.length := by
+  unfold buildOld at h
+  simp only at h
+  split at h
+  · cases h; simp
+  · next hn =>
+    apply oldLoop_leaf_lt _ ls keys.length _ _ _ _ _ _ (by simp) h
+    intro q hq
+    simp only [List.mem_singleton] at hq
+    subst hq
+    exact ⟨by simp only; omega, Nat.le_refl _⟩
+
+end LegacyWrite
